@@ -13,10 +13,10 @@ pub open spec fn with_lp(p: PairInfoRaw, lp: Seq<u8>, q: PairInfoRaw) -> bool {
     && q.requirements == p.requirements && q.commission_rate == p.commission_rate
 }
 //%fn contracts/halo-pair/src/contract.rs | - | reply
-//%%rewrite #1 /\|mut (\w+)\| -> StdResult<_> \{(?=(?s:.*?)addr_canonicalize\(&(\w+)\))/ => |meta0: PairInfoRaw| -> (o: StdResult<PairInfoRaw>) ensures /*[C16,C14 reply.closure-sets-lp-only]*/ o is Ok ==> with_lp(meta0, canon_of(\2@), o->Ok_0) { let mut \1 = meta0; ## closure parameter `mut meta` and the inferred return type are spelled out; the closure is annotated with what it must do and verified against its real body
+//%%rewrite #1 /\|mut (\w+)\| -> StdResult<_> \{(?=(?s:.*?)addr_canonicalize\(&(\w+)\))/ => |meta0: PairInfoRaw| -> (o: StdResult<PairInfoRaw>) ensures /*[C16,C14,C04,C05 reply.closure-sets-lp-only]*/ o is Ok ==> with_lp(meta0, canon_of(\2@), o->Ok_0) { let mut \1 = meta0; ## closure parameter `mut meta` and the inferred return type are spelled out; the closure is annotated with what it must do and verified against its real body
 //%%sig
     ensures
-        /*[C16,C14 reply.records-lp-token]*/ r is Ok ==> old(deps.storage).pair_info is Some && final(deps.storage).pair_info is Some
+        /*[C16,C14,C04,C05 reply.records-lp-token]*/ r is Ok ==> old(deps.storage).pair_info is Some && final(deps.storage).pair_info is Some
             && with_lp(old(deps.storage).pair_info->Some_0, canon_of(reply_contract_addr(msg)), final(deps.storage).pair_info->Some_0),
         /*[C16,C14 reply.frame]*/ final(deps.storage).config == old(deps.storage).config && final(deps.storage).commission == old(deps.storage).commission,
         /*[C07 reply.no-messages]*/ r is Ok ==> r->Ok_0.msgs().len() == 0,
